@@ -31,6 +31,8 @@ type healthScen struct {
 	Max      int    `json:"max"`
 	Via      string `json:"via"`
 	Interval int    `json:"interval"`
+	Policy   string `json:"policy"`
+	HPort    bool   `json:"hport"` // active checks go to a separate health port
 }
 
 // refusedPort reserves a TCP port that refuses connections: bound, never listening.
@@ -344,7 +346,11 @@ func runHealth(sc healthScen, idx int) (map[string]any, error) {
 				}
 			}(u, ln)
 		}
-		cfg := map[string]any{"upstreams": upcfg, "load_balancing": map[string]any{"selection": map[string]any{"policy": "first"}}}
+		pol := sc.Policy
+		if pol == "" {
+			pol = "first"
+		}
+		cfg := map[string]any{"upstreams": upcfg, "load_balancing": map[string]any{"selection": map[string]any{"policy": pol}}}
 		if sc.Via == "unhealthy_connection_count" {
 			cfg["health_checks"] = map[string]any{"passive": map[string]any{"unhealthy_connection_count": sc.Max}}
 		}
@@ -427,9 +433,31 @@ func runHealth(sc healthScen, idx int) (map[string]any, error) {
 			return nil, err
 		}
 		addr := rp.Addr()
+		dial := addr
+		active := map[string]any{"interval": int64(ms(sc.Interval)), "timeout": int64(ms(200))}
+		if sc.HPort {
+			// the service port always accepts; health is what the separate health port says
+			svc, err := net.Listen("tcp", "127.0.0.1:0")
+			if err != nil {
+				rp.Close()
+				return nil, err
+			}
+			defer svc.Close()
+			go func() {
+				for {
+					c, err := svc.Accept()
+					if err != nil {
+						return
+					}
+					c.Close()
+				}
+			}()
+			dial = svc.Addr().String()
+			active["port"] = rp.Port
+		}
 		h, done, err := provisionProxy(map[string]any{
-			"upstreams":     []map[string]any{{"dial": []string{addr}}},
-			"health_checks": map[string]any{"active": map[string]any{"interval": int64(ms(sc.Interval)), "timeout": int64(ms(200))}},
+			"upstreams":     []map[string]any{{"dial": []string{dial}}},
+			"health_checks": map[string]any{"active": active},
 		})
 		if err != nil {
 			rp.Close()
